@@ -28,7 +28,7 @@ func (c20) Meta() core.Meta {
 	return core.Meta{
 		ID: "C20", Level: "exploration",
 		Rule:        "case i = f(seed,i): a document from the C01 generator (default options) and a JSON value from the C03/C07 generators, a key that occurs at two depths on one branch when possible, plain/wildcard/indexed paths, sub-keys, key pairs and a new value. Every exported function of j2x, x2j and x2j-wrapper with a core counterpart is called on the same input and compared with the documented composition of core calls: byte equality for XML / compact JSON produced by the same encoder (safe-encoding flag passed through), JSON-value equality where only 'a JSON string' is documented, set equality for path lists, multiset equality for value lists, map equality for decoders; x2j-wrapper.PathsForKey / PathForKeyShortest == Map.PathsForKey / minimal length; ValuesFromKeyPath(m,p,true) == ValuesForPath(p), with false == the same minus attribute entries selected at wildcard steps; ValuesAtKeyPath == the parents of the last key (nil when no parent has it); reader / writer / bulk / file wrappers == the core readers on the same bytes. Non-trivial: the compared result is non-empty; distinct by hash(function, input).",
-		Assumptions: []string{"x2j-wrapper.ValuesForKey / MapValue / DocValue have their own documented semantics (no core counterpart) and are not compared", "x2j-wrapper treats '-' as the attribute marker regardless of SetAttrPrefix (documented in its package text); default options are used"},
+		Assumptions: []string{"x2j-wrapper.MapValue / DocValue have their own documented semantics (no core counterpart) and are not compared; x2j-wrapper.ValuesForKey / ValuesForTag are compared with their documented meaning: every value stored under the key at any depth, list values not expanded", "x2j-wrapper treats '-' as the attribute marker regardless of SetAttrPrefix (documented in its package text); default options are used"},
 		Anchors:     []string{"j2x.MapToJson", "j2x.JsonToXml", "j2x.JsonReaderToXml", "j2x.JsonValuesForKeyPath", "j2x.JsonUpdateValsForPath", "j2x.JsonNewJson", "j2x.JsonLeafNodes", "x2j.XmlToJson", "x2j.XmlReaderToJson", "x2j.XmlValuesForPath", "x2j.XmlUpdateValsForPath", "x2j.XmlNewXml", "x2j.XmlLeafNodes", "x2j-wrapper.PathsForKey", "x2j-wrapper.hasKeyPath", "x2j-wrapper.PathForKeyShortest", "x2j-wrapper.ValuesFromKeyPath", "x2j-wrapper.valuesFromKeyPath", "x2j-wrapper.ValuesAtKeyPath", "x2j-wrapper.DocToJson", "x2j-wrapper.DocToMap", "x2j-wrapper.XmlMsgsFromReader", "x2j-wrapper.XmlMsgsFromFile", "x2j-wrapper.ToJson", "x2j-wrapper.Unmarshal"},
 		Floors:      map[string]int64{"comparisons": 100000, "key-at-two-depths-on-a-branch": 300, "wildcard-path-with-attrs": 500, "safe-flag-matters": 300, "nonempty-results": 8000},
 	}
@@ -100,6 +100,23 @@ func refFromKeyPath(node interface{}, keys []string, getAttrs bool) []interface{
 		}
 	}
 	return out
+}
+
+// refKeyNoExpand: every value stored under key k at any depth; a list value is one value.
+func refKeyNoExpand(v interface{}, k string, out *[]interface{}) {
+	switch t := v.(type) {
+	case map[string]interface{}:
+		if e, ok := t[k]; ok {
+			*out = append(*out, e)
+		}
+		for _, kk := range sortedKeys(t) {
+			refKeyNoExpand(t[kk], k, out)
+		}
+	case []interface{}:
+		for _, e := range t {
+			refKeyNoExpand(e, k, out)
+		}
+	}
 }
 
 func (c20) Case(c *core.Ctx) {
@@ -296,6 +313,18 @@ func (c20) Case(c *core.Ctx) {
 			lv, e2 = j2x.JsonLeafValues(side.raw)
 			lp, e3 = j2x.JsonLeafPath(side.raw)
 		}
+		// x2j-wrapper.ValuesForKey / ValuesForTag: "all values in map associated with key" - every value stored under the key at any
+		// depth, list values NOT expanded (its documented difference from the core function)
+		{
+			var wantAll []interface{}
+			refKeyNoExpand(map[string]interface{}(m), key, &wantAll)
+			gotAll := x2jw.ValuesForKey(map[string]interface{}(m), key)
+			cmp("x2j-wrapper.ValuesForKey", jv.MultisetEqual(gotAll, wantAll) && (len(wantAll) > 0 || gotAll == nil), core.D{"key": key, "side": side.name, "observed": jv.Show(gotAll), "expected": jv.Show(wantAll)})
+			if side.xml {
+				gotT, et := x2jw.ValuesForTag(string(side.raw), key)
+				cmp("x2j-wrapper.ValuesForTag", et == nil && jv.MultisetEqual(gotT, wantAll), core.D{"key": key, "observed": jv.Show(gotT), "expected": jv.Show(wantAll)})
+			}
+		}
 		var gotL, wantL []string
 		for _, l := range ln {
 			gotL = append(gotL, l.Path+"="+jv.Fp(l.Value))
@@ -462,6 +491,19 @@ func (c20) Case(c *core.Ctx) {
 			docs = append(docs, d)
 			stream = append(stream, d...)
 			stream = append(stream, []string{"", "\n", " "}[r.Intn(3)]...)
+		}
+		if r.Intn(25) == 0 {
+			// one message of 70..140 KiB without a single line break (longer than any line-oriented buffer)
+			var b bytes.Buffer
+			b.WriteString("<big>")
+			for i, n := 0, 1800+r.Intn(1800); i < n; i++ {
+				fmt.Fprintf(&b, `<row id="%d">some text %d</row>`, i, i)
+			}
+			b.WriteString("</big>")
+			d := b.Bytes()
+			docs = append(docs, d)
+			stream = append(stream, d...)
+			c.Count("bulk:message-over-64KiB-on-one-line")
 		}
 		var want []string
 		for _, d := range docs {
